@@ -394,10 +394,10 @@ def tasks_for(tier, seed):
         tasks.append({"kind": "calc", "shape": sh})
     d2 = [s for s in s2 if s not in s1]
     rng.shuffle(d2)
-    for sh in d2[: (150 if tier == "quick" else 1500)]:
+    for sh in d2[: (500 if tier == "quick" else 1500)]:
         tasks.append({"kind": "calc", "shape": sh})
     d3 = []
-    for _ in range(60 if tier == "quick" else 1500):
+    for _ in range(200 if tier == "quick" else 1500):
         d3.append([rng.choice(OPS), rng.choice(d2 + s1), rng.choice(d2 + s1)])
     for sh in d3:
         tasks.append({"kind": "calc", "shape": sh})
@@ -407,7 +407,7 @@ def tasks_for(tier, seed):
     # (b) comparisons
     nonleaf1 = [s for s in s1 if not isinstance(s, str)]
     lhs_pool = ["F1"] + nonleaf1
-    rhs_pool = ["C1", "F2"] + rng.sample(nonleaf1, 6 if tier == "quick" else 30)
+    rhs_pool = ["C1", "F2"] + rng.sample(nonleaf1, 10 if tier == "quick" else 30)
     for op in ["=", "<=", ">=", "<", ">", "!="]:
         for l in (lhs_pool if tier == "thorough" else lhs_pool[:1] + rng.sample(nonleaf1, 12)):
             for r in rhs_pool:
